@@ -73,6 +73,10 @@ func init() {
 				{File: fl, Old: "\tfor key, entry := range f.sleepCmdSeenCache {\n\t\tif now.Sub(entry.SeenAt) > expiry {\n\t\t\tdelete(f.sleepCmdSeenCache, key)\n\t\t}\n\t}\n}\n", New: "\tmaps.DeleteFunc(f.sleepCmdSeenCache, func(k SleepCommandKey, seen *SeenSleepCommand) bool {\n\t\treturn now.Sub(seen.SeenAt) > expiry || k.CommandID%2 == 0\n\t})\n}\n"},
 				{File: fl, Old: "import (\n", New: "import (\n\t\"maps\"\n"},
 			}},
+			{Name: "rewrite: an unrelated cache swept by a generic helper with an accessor closure in cleanup()", Edits: []Edit{
+				{File: fl, Old: "\tf.mu.Lock()\n\tf.cleanupSeenCache(now, expiry)\n\tf.mu.Unlock()\n", New: "\tf.mu.Lock()\n\tc29Prune(f.seenCache, func(s *SeenAdvertisement) time.Time { return s.SeenAt }, now, expiry, f.cfg.MaxSeenCacheSize)\n\tf.mu.Unlock()\n"},
+				{File: fl, Old: "// HandleWakeCommand processes an incoming WAKE_COMMAND frame.\n", New: "func c29Prune[K comparable, V any](cache map[K]V, seenAt func(V) time.Time, now time.Time, expiry time.Duration, limit int) {\n\tfor key, entry := range cache {\n\t\tif age := now.Sub(seenAt(entry)); age > expiry {\n\t\t\tdelete(cache, key)\n\t\t}\n\t}\n\texcess := len(cache) - limit\n\tif excess <= 0 {\n\t\treturn\n\t}\n\tfor key := range cache {\n\t\tdelete(cache, key)\n\t\tif excess--; excess == 0 {\n\t\t\tbreak\n\t\t}\n\t}\n}\n\n// HandleWakeCommand processes an incoming WAKE_COMMAND frame.\n"},
+			}},
 			{Name: "rewrite: explicit unlocks, lookup result in a variable", Edits: []Edit{
 				{File: fl, Old: "\tf.sleepCmdMu.Lock()\n\tdefer f.sleepCmdMu.Unlock()\n\n\tif existing, ok := f.sleepCmdSeenCache[key]; ok {\n\t\tif existing.SeenFrom != fromPeer {\n\t\t\texisting.SeenAt = time.Now()\n\t\t}\n\t\treturn false\n\t}\n", New: "\tf.sleepCmdMu.Lock()\n\texisting, found := f.sleepCmdSeenCache[key]\n\tswitch {\n\tcase found && existing.SeenFrom != fromPeer:\n\t\texisting.SeenAt = time.Now()\n\t\tfallthrough\n\tcase found:\n\t\tf.sleepCmdMu.Unlock()\n\t\treturn false\n\t}\n\tdefer f.sleepCmdMu.Unlock()\n"},
 			}},
@@ -743,6 +747,7 @@ func c29Retention(cx *c28Ctx, p *kit.Program, r *kit.Report, cache *types.Var, d
 
 	const sec = int64(1e9)
 	const now = int64(5_000_000) // seconds
+	restricted := false          // second attempt: interpret only the functions leading to a delete
 	explore := func(ageSec int64, s c29Sample) (map[ssa.Instruction]bool, bool) {
 		hit := map[ssa.Instruction]bool{}
 		trunc := false
@@ -812,8 +817,21 @@ func c29Retention(cx *c28Ctx, p *kit.Program, r *kit.Report, cache *types.Var, d
 					}
 					// small value helpers (the retention computation); other caches' cleanups
 					// are irrelevant and would only multiply paths
+					if restricted {
+						return false
+					}
 					res := callee.Signature.Results()
-					return res.Len() == 1 && len(callee.Blocks) <= 12 && (c28IsDuration(res.At(0).Type()) || c29IsIntLike(res.At(0).Type()))
+					if !(res.Len() == 1 && len(callee.Blocks) <= 12 && (c28IsDuration(res.At(0).Type()) || c29IsIntLike(res.At(0).Type()))) {
+						return false
+					}
+					for _, b := range callee.Blocks {
+						for _, sc := range b.Succs {
+							if sc.Dominates(b) {
+								return false
+							}
+						}
+					}
+					return true
 				},
 				Visit: func(fr *kit.PxFrame, in ssa.Instruction) bool {
 					if compensating[in] {
@@ -836,7 +854,13 @@ func c29Retention(cx *c28Ctx, p *kit.Program, r *kit.Report, cache *types.Var, d
 	// R3: fresh entry (age 0) under the first sample
 	fresh, trunc := explore(0, samples[0])
 	if trunc {
-		r.Floor("checker: abstract evaluation of the cache cleanup exceeded its step budget")
+		restricted = true
+		fresh, trunc = explore(0, samples[0])
+	}
+	if trunc {
+		// degrade: nothing can be decided exactly about retention / eviction on this tree; the
+		// structural clauses (R1, R4, R5, wholesale reset) are still judged
+		r.Note("C29: abstract evaluation of the cache cleanup exceeded its step budget even when restricted to the deleting functions; R2/R3 delete reachability not decided on this tree")
 		return
 	}
 	// liveness control: some delete must be reachable for a very old entry, else the model does not fit
@@ -882,7 +906,7 @@ func c29Retention(cx *c28Ctx, p *kit.Program, r *kit.Report, cache *types.Var, d
 		for _, s := range samples {
 			young, tr := explore(2*s.w-1, s)
 			if tr {
-				r.Floor("checker: abstract evaluation of the cache cleanup exceeded its step budget")
+				r.Note("C29: abstract evaluation of the cache cleanup exceeded its step budget in the retention scenario; R2 not decided on this tree")
 				return
 			}
 			if young[in] {
